@@ -21,6 +21,7 @@ if ! git -C "$WT" apply "$PATCH" 2>/dev/null; then
   APPLY=3way
   git -C "$WT" apply --3way "$PATCH" >/dev/null 2>&1 || { echo "$ID-$N: patch does not apply to HEAD"; exit 3; }
 fi
+git -C "$WT" add -N . >/dev/null 2>&1
 git -C "$WT" diff HEAD -- . ':!*zz_seed_demo_test.go' > /tmp/mt/patch.$$.diff
 (cd "$WT" && go build ./... >/tmp/mt/c2.$$ 2>&1); r2=$?
 (cd "$WT/$DDIR" && go test -vet=off -count=1 -run "^($RUNRE)\$" . >/tmp/mt/c4.$$ 2>&1); r4=$?
